@@ -7,6 +7,7 @@ import (
 	"go/types"
 	"os"
 	"path/filepath"
+	"runtime/debug"
 	"sort"
 	"strings"
 
@@ -69,6 +70,12 @@ func Load(dir, mod string, overlay map[string][]byte, env []string) (*Ctx, error
 		c.PPkgs[p.PkgPath] = p
 	}
 	for fn := range ssautil.AllFunctions(prog) {
+		// instances of generic functions carry no package: give them their origin's, so that every rule can ask for it
+		if fn.Pkg == nil {
+			if o := fn.Origin(); o != nil && o.Pkg != nil {
+				fn.Pkg = o.Pkg
+			}
+		}
 		if fn.Blocks == nil || fn.Synthetic != "" && !strings.HasPrefix(fn.Synthetic, "package initializer") {
 			continue
 		}
@@ -318,7 +325,11 @@ func RunRule(c *Ctx, rule *Rule) (rep *Rep) {
 	rep = &Rep{rule: rule.Name}
 	defer func() {
 		if e := recover(); e != nil {
-			rep.Undecided("checker-panic", "", fmt.Sprintf("rule panicked: %v", e))
+			where := ""
+			if os.Getenv("GOPKICHECK_TRACE") != "" {
+				where = "\n" + string(debug.Stack())
+			}
+			rep.Undecided("checker-panic", "", fmt.Sprintf("rule panicked: %v%s", e, where))
 		}
 	}()
 	rule.Run(c, rep)
